@@ -643,6 +643,7 @@ namespace fsh
             std::vector<double> val;
             const impl_type* im;
             bool local = false;
+            std::vector<int> visits;   // how often the kernel was applied to each node
         };
         struct KNode
         {
@@ -658,7 +659,7 @@ namespace fsh
             int min_block = static_cast<int>(l.nint());
             int min_level = static_cast<int>(l.nint());
             const size_type n = grid.size();
-            KData data{ std::vector<double>(n, -1.0), &graph->impl(), dir == "any" };
+            KData data{ std::vector<double>(n, -1.0), &graph->impl(), dir == "any", std::vector<int>(n, 0) };
             fs::detail::flow_kernel k;
             k.func = [](void* p)
             {
@@ -690,6 +691,7 @@ namespace fsh
             k.node_data_setter = [](std::size_t i, void* p, void* d)
             {
                 static_cast<KData*>(d)->val[i] = static_cast<KNode*>(p)->out;
+                static_cast<KData*>(d)->visits[i] += 1;
                 return 0;
             };
             k.node_data_create = []() -> void* { return new KNode(); };
@@ -709,6 +711,10 @@ namespace fsh
                 for (auto x : data.val)
                     os << ' ' << hexd(x);
                 os << "\n";
+                bool once = true;
+                for (auto v : data.visits)
+                    once = once && v == 1;
+                os << "O kvisits " << (once ? 1 : 0) << "\n";
             }
             catch (const std::exception& ex)
             {
